@@ -807,6 +807,7 @@ func main() {
 	}
 	w("/-- value text of the constant messageMaxRetries -/\n")
 	w("def messageMaxRetries : String := %s\n", q(maxRetries))
+	emitFresh(w, p, *repo) // C17 freshness facts (fresh.go)
 	w("\nend LiskVerif.Gen.ReqFacts\n")
 
 	if *out == "" {
